@@ -5,7 +5,7 @@
 # suite still passes with it, and the registered check(s) report it.  Records the outcome in
 # /verif/seeded/<ID>/meta.json ("verified" block) and removes the worktree.
 ID="$1"; SRC="${2:-/tmp/seed_${ID,,}/SEED}"; shift 2
-CHECKS="${@:-$ID}"
+CHECKS="${@:-${ID:0:3}}"
 DST=/verif/seeded/$ID
 WT=/tmp/wt_ver_$ID
 mkdir -p $DST
@@ -29,4 +29,5 @@ for c in $CHECKS; do
 done
 git -C /repo worktree remove --force $WT
 rm -rf /tmp/ver_out_$ID /tmp/ver_$ID.*
+python3 /verif/tools/seed_meta.py $DST
 cat $R
